@@ -179,21 +179,27 @@ def check_holm(ctx, p, th, label='gen'):
 # unit: _calculate_tt_nu (compared with exact rational arithmetic only)
 # ---------------------------------------------------------------------------
 
-def check_ttnu(ctx, rng):
+def check_ttnu(ctx, rng, case=None):
     from cell_type_mapper.utils.stats_utils import _calculate_tt_nu
-    G = rng.randint(1, 12)
-    n1, n2 = rng.randint(2, 30), rng.randint(2, 30)
-    nprng = np.random.default_rng(rng.randrange(2**31))
-    m1, m2 = nprng.random(G) * 6, nprng.random(G) * 6
-    v1, v2 = nprng.random(G), nprng.random(G) * 0.1
-    for g in range(G):
-        r = rng.random()
-        if r < 0.15:
-            v1[g] = 0.0
-        if r < 0.08:
-            v2[g] = 0.0
-        if rng.random() < 0.1:
-            m2[g] = m1[g]
+    if case is None:
+        G = rng.randint(1, 12)
+        n1, n2 = rng.randint(2, 30), rng.randint(2, 30)
+        nprng = np.random.default_rng(rng.randrange(2**31))
+        m1, m2 = nprng.random(G) * 6, nprng.random(G) * 6
+        v1, v2 = nprng.random(G), nprng.random(G) * 0.1
+        for g in range(G):
+            r = rng.random()
+            if r < 0.15:
+                v1[g] = 0.0
+            if r < 0.08:
+                v2[g] = 0.0
+            if rng.random() < 0.1:
+                m2[g] = m1[g]
+    else:
+        n1, n2 = case['n1'], case['n2']
+        m1, m2, v1, v2 = (np.array(case[k], dtype=float)
+                          for k in ('m1', 'm2', 'v1', 'v2'))
+        G = len(m1)
     with np.errstate(all='ignore'):
         tt, nu = _calculate_tt_nu(m1, v1, n1, m2, v2, n2)
     ctx.case(('ttnu', n1, n2, tuple(m1), tuple(v1)),
@@ -858,6 +864,15 @@ def check_tables(ctx, route, prob_json, oracle, tables, th, cfg, detail0,
         ctx.violation(sig0 + '/tables/malformed', 'malformed table: %s'
                       % probs[0], dict(detail0, problems=probs))
         return False
+    if ctx.driver_ok:
+        rank = {l: i for i, l in enumerate(oracle.leaves)}
+        mp = ctx.model('refmarkers.pairs', {'n': len(oracle.leaves)})
+        got = [[rank[a], rank[b]] for _, (a, b) in
+               sorted(tables['idx_to_pair'].items())]
+        if mp != got:
+            corr_violation(ctx, 'pairs', 'CTM.RefMarkers.combos2 ~ '
+                           '_prep_output_file', dict(detail0, model=mp[:10]))
+            return False
     # by-gene == transpose of by-pair (exactly, rows sorted)
     for d in ('up', 'down'):
         tr = [[] for _ in range(G)]
@@ -1327,7 +1342,7 @@ def run(ctx):
     for _ in range(120 if quick else 1500):
         check_score_unit(ctx, rng)
     # ---- file layer --------------------------------------------------------
-    n_files = 24 if quick else 240
+    n_files = 24 if quick else 300
     for k in range(n_files):
         prob, cfg = gen_file_case(rng, ctx.tier)
         run_file_case(ctx, prob, cfg)
@@ -1362,6 +1377,6 @@ def replay(ctx, data, from_corpus=False):
                                                  'n_valid', 'n_valid_min',
                                                  'n_cells_min', 'gene_idx')})
     elif kind == 'ttnu':
-        pass
+        check_ttnu(ctx, ctx.rng, d)
     elif not from_corpus:
         print('nothing to replay for kind', kind)
